@@ -215,10 +215,11 @@ def run(ctx):
             res.check(bad is None, "C15-R7", "payload-attached:%s" % fname.split("::")[-1], f.loc, "the built payload is attached to the returned packet on every path (%d)" % npk,
                       "%s: %s" % (fname, bad))
     # ---- R4 layouts
-    obs, _ = accessors.analyse(fb, ctx.spec("layout.json"))
+    obs, ast = accessors.analyse(fb, ctx.spec("layout.json"), scope=lambda cls, stem: cls.startswith("TECMP::"))
     for o in obs:
         if o.cls.startswith("TECMP::") and o.tag in ("position", "size", "frame", "readback"):
             res.check(o.ok, "C15-R4", o.key, o.loc, o.detail)
+    accessors.require_supported(ast)
 
     # ---- R5 entry loop
     gi = fb.fn(TD + "GetInterfacePayload")
